@@ -32,7 +32,7 @@ class C10(Prop):
         "uninterrupted runs only. Non-trivial = a duplicate matching response, a timeout that fired, or a resume with a pending waiter."
     )
     assumptions = [
-        "waiter ids are unique per (input event, wait) as the API documents for concurrent waiters; default derived ids are used only when a single input exists",
+        "waiter ids are unique per (input event, wait) as the API documents for concurrent waiters; default derived ids are used only when every wait of the case differs from every other in (event type, requirements)",
         "events sent at exactly the virtual instant a waiter is registered or expires may go either way and are excluded from the timing clauses",
         "after a resume, timing clauses are not asserted (waiter timers are in-memory only: that is property C14)",
     ]
@@ -54,6 +54,9 @@ class C10(Prop):
                         {
                             "type": draw(st.sampled_from(["Reply", "Reply", "Reply2"])),
                             "req": draw(st.booleans()),
+                            # the requirement's value: the input's own key, or a value of this wait's own (two waits of one step for the
+                            # same type whose requirements differ only in the VALUE)
+                            "rkey": draw(st.sampled_from([None, None, "a", "b"])),
                             "timeout": draw(st.sampled_from([None, None, 3, 6])),
                             "wev": draw(st.booleans()),
                             "on_timeout": draw(st.sampled_from(["continue", "continue", "continue", "raise"])),
@@ -77,7 +80,9 @@ class C10(Prop):
                 "retry_wait": draw(st.sampled_from([0, 0, 1])),
                 "inputs": inputs,
                 # derived (default) waiter ids: only where they are unique, i.e. one input whose waits differ in (type, requirement)
-                "derived_ids": n_in == 1 and len({(w["type"], w["req"]) for w in inputs[0]["waits"]}) == len(inputs[0]["waits"]) and draw(st.integers(0, 3)) == 0,
+                # (across ALL inputs: runs of one step share the waiter-id space; (type, requirements) is what the default id is made of)
+                "derived_ids": len({(w["type"], (w.get("rkey") or x["key"]) if w["req"] else None) for x in inputs for w in x["waits"]}) == sum(len(x["waits"]) for x in inputs)
+                and draw(st.integers(0, 2)) == 0,
                 "replies": sorted(replies),
                 "snap": draw(st.sampled_from([None, None, None, None, None, None, 0, 1, 2, 3, 4, 5, 7, 9])),
                 "ties": draw(st.lists(st.integers(0, 7), max_size=8)),
@@ -110,7 +115,7 @@ class C10(Prop):
                     wid = None if case["derived_ids"] else f"w-{i}-{j}"
                     wrec = {"j": j, "wid": wid, "t": None, "res": None}
                     ent["waits"].append(wrec)
-                    req = {"key": inp["key"]} if w["req"] else None
+                    req = {"key": w.get("rkey") or inp["key"]} if w["req"] else None
                     wev = rec.mk("Ask", "waiter_event", wid=f"w-{i}-{j}") if w["wev"] else None
                     try:
                         got = await ctx.wait_for_event(ge.POOL[w["type"]], waiter_event=wev, waiter_id=wid, requirements=req, timeout=w["timeout"])
@@ -259,7 +264,7 @@ class C10(Prop):
                     g = x["got"]
                     if g["type"] != w["type"]:
                         r.v("wait_returned_wrong_type", got=g["type"], want=w["type"])
-                    if w["req"] and g["key"] != inp["key"]:
+                    if w["req"] and g["key"] != (w.get("rkey") or inp["key"]):
                         r.v("wait_returned_event_violating_requirement", resumed=resumed, life=e["seg"], req_wait_pending_at_snapshot=rp)
                 w0 = [x["t"] for e, x in recs if e["seg"] == 0 and x["res"] == "waiting"]
                 if w0:
@@ -280,7 +285,7 @@ class C10(Prop):
                 matching = [
                     s
                     for s in sent
-                    if s["type"] == w["type"] and (not w["req"] or s["fields"].get("key") == inp["key"])
+                    if s["type"] == w["type"] and (not w["req"] or s["fields"].get("key") == (w.get("rkey") or inp["key"]))
                 ]
                 strictly_in = [s for s in matching if s["t"] > reg and (deadline is None or s["t"] < deadline)]
                 at_edges = [s for s in matching if s["t"] == reg or (deadline is not None and s["t"] == deadline)]
@@ -344,6 +349,11 @@ class C10(Prop):
             r.classes.append("resume_with_pending_waiter")
         if any(len(i["waits"]) > 1 for i in case["inputs"]):
             r.classes.append("two_waits")
+        if case["derived_ids"]:
+            r.classes.append("default_waiter_ids")
+            allw = [(w["type"], w.get("rkey") or x["key"]) for x in case["inputs"] for w in x["waits"] if w["req"]]
+            if len({t for t, _ in allw}) < len(allw):
+                r.classes.append("default_ids_differ_only_in_requirement_value")
         if any(e.get("attempt", 0) > 0 for e in log["entries"]):
             r.classes.append("retried_after_wait")
         r.classes.append("outcome_" + kind)
